@@ -328,6 +328,7 @@ def run(chk):
     sb = gen_limits.values().get("optionSmallBuffer")
     SMALL_BUFFER_EDGE[:] = [sb - 1, sb, sb + 1] if sb is not None and 1 <= sb < 4096 else []
     problems = chk.prove(MODULES, AUDIT, want_leanchecker=(chk.tier == "thorough"))
+    problems = gen_limits.name_failures(chk, problems, "C12")   # name the tie theorems that fail
     exe, err = core.build_harness(HARNESS, extra=HARNESS_EXTRA)
     if exe is None:
         chk.violation("implementation does not build: " + err[-1500:], ["build-error"], nofail=True)
